@@ -51,7 +51,7 @@ def run(ctx):
             out.append(c)
         return out
     std.m2(ctx, "c02", "Shuffle_Trace", "Shuffle_Trace.cfg", 1600 if ctx.quick else 40000, negs, shards=8, jvms=1, evkeys=KEYS,
-           strip=("kind", "msg", "seed"))
+           strip=("kind", "msg", "seed", "npseed"))
     if not ctx.quick:
         from .. import suite
         suite.suite_lane(ctx, ["tests/test_ersatz.py", "tests/test_ablate.py"], ["ersatz.shuffle", "ersatz.dinucleotide_shuffle"], clauses=("tensor",))
